@@ -109,6 +109,7 @@ def _disconnect_cases(draw):
                       "cuts": draw(st.lists(st.integers(0, 10**6), max_size=12)),
                       "turns": draw(st.lists(st.integers(0, 3), min_size=1, max_size=4)),
                       "ending": draw(st.sampled_from(["eof", "eof", "eof_mid_header",
+                                                      "eof_mid_body", "eof_mid_body",
                                                       "peer_stops_reading", "sentinel"])),
                       "fault_at": draw(st.integers(0, 10**6))})
     nslow = sum(1 for cn in conns for cl in cn["calls"] if cl["kind"] == "slow")
